@@ -204,6 +204,10 @@ def addEntry (es : List Entry) (h endT amt : Int) : List Entry :=
 
 /-! ### module handlers -/
 
+/-- rewards paid to `who` from outside the model (boundary amounts): the shareclass claim from the validator's reward
+    saver, a distribution withdrawal, or the withdrawal the staking hooks perform on every (un)delegation -/
+def claim (b : Bank) (who : Addr) (ext : Ext) : Bank := (b.credit who fee ext.rewFee).credit who bond ext.rewBond
+
 /-- x/selfdelegation Msg/SelfDelegate for delegator `d` (after getRootOwner and the proxy creation):
     send fee d→proxy, ConvertReverse at the proxy, staking Delegate from the proxy (boundary `ext.ok`) -/
 def modSelfDelegate (s : St) (d : Addr) (amt : Int) (ext : Ext) : Res St :=
@@ -215,7 +219,7 @@ def modSelfDelegate (s : St) (d : Addr) (amt : Int) (ext : Ext) : Res St :=
     (Convert.convertReverse bond fee b1 p amt).bind fun b2 =>
     (b2.send p stakingPool bond amt).bind fun b3 =>
     if amt = 0 then .err "staking-zero"
-    else .ok { s with bank := b3, hasProxy := fun a => if a = d then true else s.hasProxy a,
+    else .ok { s with bank := claim b3 p ext, hasProxy := fun a => if a = d then true else s.hasProxy a,
                       stake := fun a => if a = p then s.stake p + amt else s.stake a }
 
 /-- x/selfdelegation Msg/WithdrawSelfDelegationUnbonded for delegator `d`: Convert at the proxy, send fee proxy→d -/
@@ -226,9 +230,6 @@ def modWithdraw (s : St) (d : Addr) (amt : Int) : Res St :=
     (Convert.convert bond fee s.bank p amt).bind fun b1 =>
     (b1.send p d fee amt).bind fun b2 =>
     .ok { s with bank := b2 }
-
-/-- shareclass reward claim (boundary amounts) paid from the validator's reward saver -/
-def claim (b : Bank) (who : Addr) (ext : Ext) : Bank := (b.credit who fee ext.rewFee).credit who bond ext.rewBond
 
 /-! ### step -/
 
@@ -336,7 +337,7 @@ def doPxUndelegate (s : St) (d caller sender : Addr) (amt : Int) (ext : Ext) : R
   else
     let p := proxyOf d
     if s.stake p < amt then .err "staking-insufficient"
-    else .ok { s with stake := fun a => if a = p then s.stake p - amt else s.stake a,
+    else .ok { s with bank := claim s.bank p ext, stake := fun a => if a = p then s.stake p - amt else s.stake a,
                       ubds := s.ubds ++ [⟨p, amt, s.now + s.ut⟩] }
 
 def doPxWithdrawReward (s : St) (d caller sender : Addr) (ext : Ext) : Res St :=
